@@ -90,7 +90,26 @@ def hermitian_configs(tier, hermitian=True):
     add(carrier="A", sizes=[1, 2], spectrum=["0", "1", "2"], terms=[[1]], max_order=3,
         fd={"1": [[0, 1], [1, 0]]})
     add(carrier="A", sizes=[1, 1, 2], spectrum=["0", "1", "2", "2"], terms=[[1, 0], [0, 1]], max_order=2, fd=[2])
+    # --- carrier C: the library's sympy mode (sympy branches of masks and of the diagonal solver), symbolic spectra + masks
+    add(carrier="C", sizes=[1, 2], spectrum="sym", terms=[[1]], max_order=3)
+    add(carrier="C", sizes=[2, 1], spectrum="sym", terms=[[1]], max_order=3, fd=[0])
+    add(carrier="C", sizes=[2, 1], spectrum="sym", terms=[[1]], max_order=3, fd=[0, 1])
+    add(carrier="C", sizes=[3], spectrum="sym", terms=[[1]], max_order=3)
+    add(carrier="C", sizes=[3], spectrum="sym", classes=[0, 1, 1], terms=[[1]], max_order=3)
+    add(carrier="C", sizes=[3], spectrum="sym", terms=[[1]], max_order=3, fd={"0": [[0, 1, 0], [1, 0, 0], [0, 0, 0]]})
+    add(carrier="C", sizes=[2, 2], spectrum="sym", classes=[0, 0, 1, 2], terms=[[1]], max_order=3, fd=[0, 1])
+    add(carrier="C", sizes=[1, 1, 2], spectrum="sym", terms=[[1]], max_order=2, fd=[2])
+    add(carrier="C", sizes=[1, 2], spectrum=RAT_SPECTRA[3], terms=[[1, 0], [0, 1], [1, 1]], max_order=3, fd={"1": [[0, 1], [1, 0]]})
+    if tier == "thorough":
+        add(carrier="C", sizes=[2, 2], spectrum="sym", terms=[[1]], max_order=3, fd=[0, 1])
+        add(carrier="C", sizes=[2, 2], spectrum="sym", terms=[[1]], max_order=3, fd={"0": [[0, 1], [1, 0]]})
+        add(carrier="C", sizes=[3, 1], spectrum="sym", classes=[0, 1, 1, 2], terms=[[1]], max_order=3, fd={"0": [[0, 1, 1], [1, 0, 0], [1, 0, 0]]})
+        add(carrier="C", sizes=[4], spectrum="sym", classes=[0, 1, 1, 2], terms=[[1]], max_order=2)
+        add(carrier="C", sizes=[1, 3], spectrum=RAT_SPECTRA[4], terms=[[1], [2]], max_order=4, fd={"1": [[0, 1, 0], [1, 0, 1], [0, 1, 0]]})
+        add(carrier="C", sizes=[2, 1, 1], spectrum=RAT_SPECTRA_ALT[4], terms=[[1], [2]], max_order=4, fd=[0])
+        add(carrier="C", sizes=[2, 1], spectrum=RAT_SPECTRA[3], terms=[[1, 0, 0], [0, 1, 0], [0, 0, 1]], max_order=3, fd=[0])
     if not hermitian:
+        add(carrier="C", sizes=[3], spectrum="sym", terms=[[1]], max_order=3, fd={"0": [[0, 1, 0], [0, 0, 1], [1, 0, 0]]})
         # asymmetric masks are legal in non-Hermitian mode
         add(carrier="A", sizes=[3], spectrum=["0", "1", "2"], terms=[[1]], max_order=3,
             fd={"0": [[0, 1, 0], [0, 0, 1], [1, 0, 0]]})
